@@ -9,6 +9,7 @@ from .instructions import PrefixToken
 from .instructions import RexToken, ModRmToken, SibToken
 from .instructions import Imm32Token, Imm8Token
 from .instructions import RmMem, RmMemDisp, RmReg32, RmReg64, RmAbs, MovAdr
+from .instructions import RmWrite
 from .instructions import Jb, Jbe, Ja, Jae, Je, Jne, Js, NearJump
 from .instructions import SubImm, AddImm
 from .registers import XmmRegisterSingle, XmmRegisterDouble
@@ -168,7 +169,7 @@ class Movsd(Sse2Instruction):
     patterns = {"prefix": 0xF2, "opcode": 0x10}
 
 
-class Movss2(Sse1Instruction):
+class Movss2(RmWrite, Sse1Instruction):
     """Move scalar single-fp value"""
 
     rm = Operand("rm", xmm_single_rm_modes)
@@ -177,7 +178,7 @@ class Movss2(Sse1Instruction):
     patterns = {"prefix": 0xF3, "opcode": 0x11}
 
 
-class Movsd2(Sse2Instruction):
+class Movsd2(RmWrite, Sse2Instruction):
     """Move scalar double-fp value"""
 
     rm = Operand("rm", xmm_double_rm_modes)
